@@ -249,6 +249,8 @@ type ArtelaOpts struct {
 	// InnerFor, if set, supplies a fresh real tracer per invocation (Debug must be on).
 	InnerFor func(i int, evm *avm.EVM, inv *Invocation) avm.EVMLogger
 	Ctx      context.Context
+	// ShareConfig hands the scenario's own ExtraEips slice to the EVM (no private copy)
+	ShareConfig bool
 	// OnGetHash observes every block-hash lookup the VM makes at the host
 	OnGetHash func(n uint64)
 }
@@ -316,6 +318,11 @@ func RunArtela(sc *Scenario, opt ArtelaOpts) *ArtelaRun {
 		bctx.Difficulty = big.NewInt(0)
 	}
 	vmcfg := avm.Config{ExtraEips: append([]int(nil), sc.ExtraEips...)}
+	if opt.ShareConfig {
+		// as a host does: one vm.Config value handed to every EVM it builds, the list of
+		// extra EIPs is the same backing array for all of them
+		vmcfg.ExtraEips = sc.ExtraEips
+	}
 	var logger *ArtelaLogger
 	if opt.Debug {
 		logger = &ArtelaLogger{R: rec, Inner: opt.Inner}
